@@ -116,7 +116,11 @@ fn resolve(name: &str, ctors: &HashMap<String, Ctor>, depth: usize) -> [String; 
         }
         match st {
             Stmt::Local(l) => {
-                let (syn::Pat::Ident(pi), Some(init)) = (&l.pat, &l.init) else { return other("unrecognised statement") };
+                let pat = match &l.pat {
+                    syn::Pat::Type(pt) => &*pt.pat,
+                    p => p,
+                };
+                let (syn::Pat::Ident(pi), Some(init)) = (pat, &l.init) else { return other("unrecognised statement") };
                 lets.insert(pi.ident.to_string(), (*init.expr).clone());
             }
             _ => return other("unrecognised statement"),
@@ -125,7 +129,7 @@ fn resolve(name: &str, ctors: &HashMap<String, Ctor>, depth: usize) -> [String; 
     let Some(Expr::Call(call)) = tail(&c.block) else { return other(&squash(&toks(&c.block))) };
     let f = squash(&toks(&*call.func));
     let target = f.rsplit("::").next().unwrap_or("").to_string();
-    let prefix_ok = f.starts_with("Self::") || f.starts_with("Rodeo::") || f.starts_with("ThreadedRodeo::");
+    let prefix_ok = f.starts_with("Self::") || f.starts_with("Rodeo::") || f.starts_with("ThreadedRodeo::") || f.starts_with("Rodeo::<") || f.starts_with("ThreadedRodeo::<");
     if !prefix_ok {
         return other(&f);
     }
@@ -242,6 +246,19 @@ fn full_ctor(c: &Ctor) -> [String; 4] {
             _ => o(&squash(&toks(e))),
         }
     };
+    // `let arena = LockfreeArena::new(..).expect(..);` etc.: fields given as locals
+    let mut field_lets: HashMap<String, &Expr> = HashMap::new();
+    for st in c.block.stmts.iter() {
+        if let Stmt::Local(l) = st {
+            let pat = match &l.pat {
+                syn::Pat::Type(pt) => &*pt.pat,
+                p => p,
+            };
+            if let (syn::Pat::Ident(pi), Some(init)) = (pat, &l.init) {
+                field_lets.insert(pi.ident.to_string(), &*init.expr);
+            }
+        }
+    }
     let Some(Expr::Struct(st)) = tail(&c.block) else { return [o("no struct literal"), o(""), o(""), "none".into()] };
     let mut arena_bytes = o("no arena field");
     let mut arena_max = o("no arena field");
@@ -251,6 +268,13 @@ fn full_ctor(c: &Ctor) -> [String; 4] {
         let name = squash(&toks(&f.member));
         // strip `.expect(..)` / `.unwrap()`
         let mut e = peel(&f.expr);
+        if let Expr::Path(p) = e {
+            if p.path.segments.len() == 1 {
+                if let Some(init) = field_lets.get(&p.path.segments[0].ident.to_string()) {
+                    e = peel(init);
+                }
+            }
+        }
         while let Expr::MethodCall(m) = e {
             if m.method == "expect" || m.method == "unwrap" {
                 e = peel(&m.receiver);
@@ -299,12 +323,20 @@ fn ctor_name(n: &str) -> String {
     }
 }
 
+thread_local! {
+    /// `const NAME: T = <value>;` items of util.rs (name -> squashed value expression is re-parsed on use)
+    static CONSTS: std::cell::RefCell<HashMap<String, Expr>> = std::cell::RefCell::new(HashMap::new());
+}
+
 /// A value of a builder's field.
 fn cval(e: &Expr, ps: &[String]) -> String {
     let e = peel(e);
     let t = squash(&toks(e));
     if ps.contains(&t) {
         return ".param".into();
+    }
+    if let Some(c) = CONSTS.with(|m| m.borrow().get(&t).cloned()) {
+        return cval(&c, &[]);
     }
     if t == "usize::MAX" || t == "usize::max_value()" || t == "core::usize::MAX" {
         return ".usizeMax".into();
@@ -383,6 +415,15 @@ pub fn emit(src: &Path, out: &mut String) {
     let upath = src.join("util.rs");
     if upath.exists() {
         let parsed = parse_file(&upath);
+        CONSTS.with(|m| {
+            let mut m = m.borrow_mut();
+            m.clear();
+            for item in &parsed.items {
+                if let Item::Const(c) = item {
+                    m.insert(c.ident.to_string(), (*c.expr).clone());
+                }
+            }
+        });
         // first the Default impls (for `..Self::default()`)
         let mut defaults: HashMap<(String, String), String> = HashMap::new();
         let mut fns: Vec<(String, String, Vec<String>, syn::Block)> = Vec::new();
@@ -409,7 +450,23 @@ pub fn emit(src: &Path, out: &mut String) {
                 fns.push((ty.clone(), f.sig.ident.to_string(), ps, f.block.clone()));
             }
         }
+        let fns_snapshot: Vec<(String, String, Vec<String>, syn::Block)> = fns.clone();
         let fields_of = |block: &syn::Block, ps: &[String]| -> Option<(Vec<(String, String)>, bool)> {
+            // a builder that only calls a sibling builder with its own parameters in the same order
+            if let Some(Expr::Call(c)) = tail(block) {
+                let f = squash(&toks(&*c.func));
+                if let Some(target) = f.strip_prefix("Self::") {
+                    let args: Vec<String> = c.args.iter().map(|a| squash(&toks(a))).collect();
+                    if let Some((_, _, tps, tblock)) = fns_snapshot.iter().find(|(_, n, tps, _)| n == target && tps.len() == args.len()) {
+                        if args == *ps && tps.len() == ps.len() && block.stmts.len() == 1 {
+                            if let Some(Expr::Struct(st)) = tail(tblock) {
+                                let v = st.fields.iter().map(|f| (squash(&toks(&f.member)), cval(&f.expr, tps))).collect();
+                                return Some((v, st.rest.is_some()));
+                            }
+                        }
+                    }
+                }
+            }
             let Some(Expr::Struct(st)) = tail(block) else { return None };
             let mut v = Vec::new();
             for f in &st.fields {
